@@ -93,6 +93,8 @@ class Comparer:
         self.hook_b: Optional[Callable] = None
         self.extra_params_a: Set[str] = set()
         self.return_map: Optional[Callable] = None   # transformation applied to side b's returned term
+        self.initial_facts: Dict[tuple, C.Term] = {}   # equalities valid throughout (checked preconditions)
+        self.exit_facts: List[tuple] = []              # negated conditions of the while loops already passed
         self.skip_signature = False
         for s in (a, b):
             if s.body is None:
@@ -150,12 +152,43 @@ class Comparer:
         env.negated = set(side.negate)
         return env
 
+    def _infer_local_bijection(self):
+        """Locals that exist on one side only are paired in order of first assignment (a one-sided renaming of a
+        local must not break the comparison); a wrong pairing only makes the comparison fail."""
+        if self.a.fi is self.b.fi:
+            return
+        def firsts(side: Side):
+            seen: List[str] = []
+            params = {x.arg for x in side.fi.node.args.args}
+            for n in ast.walk(side.fi.node):
+                pass
+            # source order of first stores
+            stores = [(n.lineno, n.col_offset, n.id) for n in ast.walk(side.fi.node)
+                      if isinstance(n, ast.Name) and isinstance(n.ctx, ast.Store)]
+            for _l, _c, nm in sorted(stores):
+                cn = side.cn(nm)
+                if cn not in seen and nm not in params:
+                    seen.append(cn)
+            return seen
+        fa_, fb_ = firsts(self.a), firsts(self.b)
+        only_a = [n for n in fa_ if n not in fb_]
+        only_b = [n for n in fb_ if n not in fa_]
+        if only_a and len(only_a) == len(only_b):
+            inv_b = {v: k for k, v in self.b.rename.items()}
+            ren = dict(self.b.rename)
+            for x, y in zip(only_a, only_b):
+                raw = inv_b.get(y, y)
+                ren[raw] = x
+            self.b.rename = ren
+            self.info.append(f"{self.title}: locals paired by order of first assignment: " +
+                             ', '.join(f"{y}->{x}" for x, y in zip(only_a, only_b)))
+
     def run(self):
         ea, eb = self.make_env(self.a), self.make_env(self.b)
         if not self.skip_signature:
             self.compare_params()
         try:
-            self.seq(self.a.body, self.b.body, ea, eb, {}, {}, [], set(), set())
+            self.seq(self.a.body, self.b.body, ea, eb, dict(self.initial_facts), dict(self.initial_facts), [], set(), set())
         except CanonError as e:
             raise Inconclusive(f"{self.title}: canonicaliser: {e}")
         return self
@@ -656,7 +689,7 @@ class Comparer:
                         found = list(perm)
                         break
             if found is not None and found != order:
-                if not guards_exclusive([a[0] for a in alts_b]):
+                if not guards_exclusive([a[0] for a in alts_b], assume=self.exit_facts):
                     raise Inconclusive(f"{self.title}: alternatives would need reordering but guards are not "
                                        f"provably exclusive at {self.loc(self.b, xb[-1])}")
                 order = found
@@ -861,6 +894,11 @@ class Comparer:
         sa, sb = self.seq(body_a, body_b, e1, e2, fa, fb, ctx + [label],
                           loop_reads_a | rest_a, loop_reads_b | rest_b)
         self.compare_vars(e1, e2, union, sa, sb, fa, fb, ctx + [label], live_in, 'at end of loop body')
+        if kind == 'while':
+            try:
+                self.exit_facts.append(C.mk_not(C.canon_cond(xa[1], ea)))
+            except CanonError:
+                pass
         for n in wa:
             asg_a[n] = xa[-1]
         for n in wb:
@@ -868,7 +906,7 @@ class Comparer:
 
 
 # ----------------------------------------------------------------------------
-def guards_exclusive(guards: List[tuple]) -> bool:
+def guards_exclusive(guards: List[tuple], assume: Optional[List[tuple]] = None) -> bool:
     """Truth-table check that the guards of an if-chain are pairwise mutually exclusive, over
     the order theory of their comparison atoms (each distinct polynomial is <0, ==0 or >0)."""
     polys: List[C.Term] = []
@@ -887,11 +925,19 @@ def guards_exclusive(guards: List[tuple]) -> bool:
         else:
             raise ValueError('opaque')
 
+    assume = list(assume or [])
     try:
         for g in guards:
             collect(g)
     except ValueError:
         return False
+    usable = []
+    for a_ in assume:
+        try:
+            collect(a_)
+            usable.append(a_)
+        except ValueError:
+            pass
     if len(polys) > 7:
         return False
 
@@ -910,6 +956,8 @@ def guards_exclusive(guards: List[tuple]) -> bool:
     for asg in itertools.product((-1, 0, 1), repeat=len(polys)):
         # consistency between polys that differ by a constant (e.g. i - N + 1 and i - N + 2): conservative,
         # inconsistent rows only make the check stricter (never unsound)
+        if any(not ev(a_, asg) for a_ in usable):
+            continue      # row contradicts a fact known at this point (e.g. the exit condition of the loop just left)
         truths = [ev(g, asg) for g in guards]
         if sum(truths) > 1:
             return False
